@@ -439,6 +439,7 @@ func runRace(ctx *runner.Ctx) {
 	if ctx.Quick() {
 		args = append(args, "-short")
 	}
+	args = append(args, runner.RaceDeadlineArg(ctx))
 	if runner.RepoDir != "/repo" {
 		args = append(args, "-modfile="+os.Getenv("VERIF_WORK")+"/go.mod")
 	}
@@ -461,6 +462,7 @@ func runRace(ctx *runner.Ctx) {
 			end = len(o)
 		}
 		ctx.Violate("data-race", "race detector report in free-running GMW sessions: "+o[i:end], k)
+	case err != nil && runner.RaceDeadlineHit(ctx, "GMW sessions", o):
 	case err != nil && strings.Contains(o, "--- FAIL"):
 		ctx.Violate("wrong-output.free-running", "free-running GMW sessions failed: "+tail, k)
 	case err != nil:
